@@ -84,11 +84,11 @@ func H_C10_refnum() {
 	which := vf.Choice("which", 3)
 	switch which {
 	case 0:
-		div := int64(1 + vf.Choice("div", 4))
+		div := int64(1 + vf.Choice("divisor", 4))
 		if vf.Bool("negdiv") {
 			div = -div
 		}
-		rem := int64(vf.Choice("rem", 4)) - 1
+		rem := int64(vf.Choice("remainder", 4)) - 1
 		// bound: |field| < 2^20 keeps the 64-bit remainder within reach of the solver
 		vf.Assume(x > -1048576 && x < 1048576)
 		got, err := match2(doc, bson.D{{Key: "a", Value: bson.D{{Key: "$mod", Value: bson.A{div, rem}}}}})
